@@ -125,6 +125,8 @@ def ops_requests(rng, n):
                 b = rng.choice([0, 1, 2, 3, 5, 8, 16, 31, 64, -1, -3])
             if op == "pow" and abs(b) > 4096:
                 b = b % 70
+            if tb in ("u8", "u16", "u32") and b < 0:
+                b = -b      # (third round) the literal exponents above are not values of an unsigned type: `np.uint16(-3)` itself raises
             if op == "shl" and tb == "py" and ta != "py" and abs(b) > 10 ** 6:
                 pass   # goes through the conversion check (OverflowError) or the count rule
             py = outcome(lambda: BINOPS[op](mk(ta, a), mk(tb, b)))
